@@ -10,8 +10,9 @@ EXTENDS Naturals, FiniteSets
 
 WireNeutral ==
   [ normalization         |-> {"none", "rust"},
-    response_derives      |-> {"Debug, Serialize", "Debug, PartialEq, Serialize, Clone", "Serialize,Debug , Clone"},
-    variables_derives     |-> {"Deserialize", "Deserialize, Debug, Clone, PartialEq"},
+    response_derives      |-> {"Debug, Serialize", "Debug, PartialEq, Serialize, Clone", "Serialize,Debug , Clone",
+                                "Debug, serde::Serialize"},           \* a trait may be given by path
+    variables_derives     |-> {"Deserialize", "Deserialize, Debug, Clone, PartialEq", "serde::Deserialize, Debug"},
     module_visibility     |-> {"pub", "pub(crate)"},
     custom_scalars_module |-> {"", "crate::scalars"},
     extern_enums          |-> {"", "Color"},
